@@ -48,7 +48,10 @@ def tasks_for(tier):
     for i in range(m_):
         dims = 1 + i % 3
         form = ['facets', 'body', 'facets', 'planes'][i % 4]
-        out.append((base + 1000 + i, 3 if form == 'body' else dims, 'array' if i % 3 else 'option', False, form, form == 'planes'))
+        out.append((base + 1000 + i, 3 if form == 'body' else dims, 'array' if i % 3 else 'option', False, form,
+                    ('same' if i % 8 == 7 else True) if form == 'planes' else False))
+    for i in range(4 if tier == 'quick' else 40):
+        out.append((base + 2000 + i, 1 + i % 2, 'array', False, 'planes', 'same'))
     return out
 
 
